@@ -1,0 +1,6 @@
+//go:build !verif
+
+package store
+
+// verifPoint() is a no-op unless built with the `verif` tag (see verif_hooks.go)
+func verifPoint(string, int) {}
